@@ -306,7 +306,14 @@ def _announce_events(rng, n):
     evs = []
     for i in range(n):
         e = gen.gen_event(rng, authors=gen.AUTHORS[:2], kinds=[1, 1, 7, 20001, 30000, 10002], times=[gen.T0 + i])
-        e["tags"] = [t for t in e["tags"] if t and t[0] not in ("expiration", "e", "delegation")]
+        e["tags"] = [t for t in e["tags"] if t and t[0] not in ("expiration", "e", "delegation", "d")]
+        # the announce model knows submissions, not replacement: every replaceable event gets an address of its own, so that no
+        # event of the schedule supersedes another one (a superseded event that is submitted again is *new* again)
+        if e["kind"] == 30000:
+            e["tags"].insert(0, ["d", "addr-%d" % i])
+        elif e["kind"] == 10002:
+            if any(x["kind"] == 10002 and x["pubkey"] == e["pubkey"] for x in evs):
+                e["kind"] = 1
         evs.append(e)
     return evs
 
